@@ -261,11 +261,11 @@ def _machine_busy():
 def z3_check(script, timeout_ms=20000, want_model=False):
     """returns ('unsat'|'sat'|'unknown', model-or-None, seconds)"""
     t0 = time.time()
-    # the limit is wall-clock time: a query that runs into it gets one more attempt with three times
+    # the limit is wall-clock time: a query that runs into it gets one more attempt with five times
     # the budget, so that a machine that is busy with other work does not turn a decided query into
     # an inconclusive one (a query that is still undecided then stays `unknown`, never a pass)
-    for budget in (int(timeout_ms), 3 * int(timeout_ms), 9 * int(timeout_ms)):
-        if budget == 9 * int(timeout_ms) and not _machine_busy():
+    for budget in (int(timeout_ms), 5 * int(timeout_ms), 15 * int(timeout_ms)):
+        if budget == 15 * int(timeout_ms) and not _machine_busy():
             break       # (a third attempt only while the machine is overloaded by other work)
         s = z3.SolverFor('QF_NRA')
         s.set('timeout', budget)
